@@ -353,6 +353,28 @@ static uint64_t TsToUs(const struct timespec * ts) {return (uint64_t) ts->tv_sec
 using namespace vs::thr;
 static const uint64_t kWallOffsetUs = 1700000000ULL*1000000ULL;
 extern "C" {
+// C++ function-local statics: libstdc++'s guard makes a second thread that needs a static under construction sleep on a futex the scheduler knows nothing about.  If the
+// constructing thread is parked at a hook inside the constructor (an ObjectPool's constructor locks a Mutex) the second thread would then sleep for real, for ever.  These
+// definitions replace the guard (the executable's strong definitions win the dynamic lookup, as for pthread_cond_*): same semantics, but the waiting is a scheduler wait.
+// Layout as in the Itanium ABI: byte 0 = initialised (tested inline by compiled code), byte 1 = construction in progress.
+int __cxa_guard_acquire(uint64_t * g)
+{
+   volatile unsigned char * b = (volatile unsigned char *) g;
+   while(true)
+   {
+      if (__atomic_load_n(&b[0], __ATOMIC_ACQUIRE)) return 0;
+      unsigned char expected = 0;
+      if (__atomic_compare_exchange_n(&b[1], &expected, (unsigned char) 1, false, __ATOMIC_ACQ_REL, __ATOMIC_ACQUIRE))
+      {
+         if (__atomic_load_n(&b[0], __ATOMIC_ACQUIRE)) {__atomic_store_n(&b[1], (unsigned char) 0, __ATOMIC_RELEASE); return 0;}
+         return 1;
+      }
+      if ((t_self != NULL)&&(g_active)) WaitUntil([b]() {return __atomic_load_n(&b[1], __ATOMIC_ACQUIRE) == 0;}); else sched_yield();
+   }
+}
+void __cxa_guard_release(uint64_t * g) {volatile unsigned char * b = (volatile unsigned char *) g; __atomic_store_n(&b[0], (unsigned char) 1, __ATOMIC_RELEASE); __atomic_store_n(&b[1], (unsigned char) 0, __ATOMIC_RELEASE);}
+void __cxa_guard_abort(uint64_t * g)   {volatile unsigned char * b = (volatile unsigned char *) g; __atomic_store_n(&b[1], (unsigned char) 0, __ATOMIC_RELEASE);}
+
 int __wrap_clock_gettime(clockid_t id, struct timespec * ts)
 {
    const uint64_t t = g_now + (((id == CLOCK_REALTIME)||(id == CLOCK_REALTIME_COARSE)) ? kWallOffsetUs : 0);
